@@ -702,7 +702,7 @@ package ro
 //@ func Delay$1$1$1
 //@   note consume: the timer callback releases the head of the queue (FIFO), or nothing when the teardown emptied it
 //@   props C16 C09
-//@   binds queue destination
+//@   binds muQueue queue muNext destination
 //@   maypanic
 //@   inline processNotificationWithObserverAndContext processNotificationWithContext
 //@   track destination.*
